@@ -28,6 +28,7 @@ import (
 	"strconv"
 	"strings"
 	"sync"
+	"sync/atomic"
 	"time"
 
 	mail "github.com/wneessen/go-mail"
@@ -303,9 +304,10 @@ type Obs struct {
 	Arm       string // per cleartext read A/U, then "|" and the summary of the reads below TLS
 	Srv       string
 	LastVerb  string
-	Positions int  // number of script decisions the server consumed (command positions incl. AUTH steps)
-	Ended     bool // the server side ended without being forced (the client closed, or the server closed itself)
-	Hung      bool // the watchdog had to tear the case down
+	Positions int    // number of script decisions the server consumed (command positions incl. AUTH steps)
+	Ended     bool   // the server side ended without being forced (the client closed, or the server closed itself)
+	Hung      bool   // the watchdog had to tear the case down
+	HungCall  string // the public call that did not return within the bound
 	Elapsed   time.Duration
 	Clear     []byte // mem: bytes the client wrote before its first TLS record; tcp: first raw bytes the server read
 	AllTLS    bool   // tcp: the raw byte stream starts with a TLS handshake record
@@ -585,17 +587,29 @@ func RunWith(c Case, p *PKI, timeout time.Duration, build func(transport ...mail
 		phase   string
 		first   error
 	}
-	done := make(chan outcome, 1)
+	// every public call runs in a goroutine of its own under the property's bound; a call that does not return is
+	// recorded (Hung, HungCall) and its goroutine is abandoned: nothing below waits for it
 	t0 := time.Now()
-	go func() {
-		var oc outcome
-		ctx := context.Background()
-		switch c.Kind {
-		case "dial":
-			err := client.DialWithContext(ctx)
+	ctx := context.Background()
+	call := func(name string, f func() error) (error, bool) {
+		ch := make(chan error, 1)
+		go func() { ch <- f() }()
+		select {
+		case err := <-ch:
+			return err, true
+		case <-time.After(Bound(timeout)):
+			o.Hung, o.HungCall = true, name
+			return nil, false
+		}
+	}
+	var oc outcome
+	switch c.Kind {
+	case "dial":
+		if err, ok := call("DialWithContext", func() error { return client.DialWithContext(ctx) }); ok {
 			oc.results, oc.first = []string{Classify(err)}, err
-		case "das":
-			err := client.DialAndSendWithContext(ctx, msgs...)
+		}
+	case "das":
+		if err, ok := call("DialAndSendWithContext", func() error { return client.DialAndSendWithContext(ctx, msgs...) }); ok {
 			oc.first = err
 			switch {
 			case err == nil:
@@ -612,42 +626,60 @@ func RunWith(c Case, p *PKI, timeout time.Duration, build func(transport ...mail
 			default:
 				oc.results = []string{Classify(err)}
 			}
-		default: // sess
-			err := client.DialWithContext(ctx)
+		}
+	default: // sess: DialWithContext, Send, Reset, Close; sess2: a second Send on the persistent connection before Reset
+		err, ok := call("DialWithContext", func() error { return client.DialWithContext(ctx) })
+		if ok {
 			oc.first = err
 			oc.results = []string{Classify(err)}
-			if err == nil {
-				e1 := client.Send(msgs...)
-				if e1 != nil {
-					oc.results = append(oc.results, "send")
-				} else {
-					oc.results = append(oc.results, "ok")
+		}
+		if ok && err == nil {
+			sends := 1
+			if c.Kind == "sess2" {
+				sends = 2
+			}
+			for i := 0; i < sends && ok; i++ {
+				ms := msgs
+				if i > 0 {
+					ms = make([]*mail.Msg, len(c.Msgs))
+					for j, n := range c.Msgs {
+						ms[j] = newMsg(n)
+					}
 				}
-				e2 := client.Reset()
-				oc.results = append(oc.results, Classify(e2))
-				e3 := client.Close()
-				if closeNotifyArtefact(e3) {
-					e3 = nil
+				var e1 error
+				if e1, ok = call("Send", func() error { return client.Send(ms...) }); ok {
+					if e1 != nil {
+						oc.results = append(oc.results, "send")
+						if oc.first == nil {
+							oc.first = e1
+						}
+					} else {
+						oc.results = append(oc.results, "ok")
+					}
 				}
-				oc.results = append(oc.results, Classify(e3))
-				for _, e := range []error{e1, e2, e3} {
-					if oc.first == nil && e != nil {
-						oc.first = e
+			}
+			if ok {
+				var e2 error
+				if e2, ok = call("Reset", func() error { return client.Reset() }); ok {
+					oc.results = append(oc.results, Classify(e2))
+					if oc.first == nil {
+						oc.first = e2
+					}
+				}
+			}
+			if ok {
+				var e3 error
+				if e3, ok = call("Close", func() error { return client.Close() }); ok {
+					if closeNotifyArtefact(e3) {
+						e3 = nil
+					}
+					oc.results = append(oc.results, Classify(e3))
+					if oc.first == nil {
+						oc.first = e3
 					}
 				}
 			}
 		}
-		done <- oc
-	}()
-	var oc outcome
-	calls := 1
-	if c.Kind == "sess" {
-		calls = 4
-	}
-	select {
-	case oc = <-done:
-	case <-time.After(time.Duration(calls) * Bound(timeout)):
-		o.Hung = true
 	}
 	o.Elapsed = time.Since(t0)
 	if memClient != nil {
@@ -664,17 +696,24 @@ func RunWith(c Case, p *PKI, timeout time.Duration, build func(transport ...mail
 		o.Srv, o.Arm = "-", "|-"
 		return o, nil
 	}
+	if ln != nil {
+		ln.Close()
+	}
 	if o.Hung {
-		srv.Finish(0)
+		// tear both ends down by force; the stuck call may or may not come back (a wait that no deadline and no Close
+		// interrupts stays for ever): its goroutine is leaked
+		blocked.Add(1)
 		if memClient != nil {
 			memClient.Close()
 		}
-		oc = <-done
+		finished := make(chan struct{})
+		go func() { srv.Finish(0); close(finished) }()
+		select {
+		case <-finished:
+		case <-time.After(2 * time.Second):
+		}
 		oc.results = []string{"HANG"}
 		oc.phase = ""
-	}
-	if ln != nil {
-		ln.Close()
 	}
 	if c.SSL {
 		// TCP: a write to a connection the peer has closed may succeed (the read then sees EOF) or fail (EPIPE, reset)
@@ -840,6 +879,15 @@ func FindSecret(b []byte) string {
 // IsLocalhostName: the host kinds of the property text (independent list, not read from the source)
 func IsLocalhostName(h string) bool { return h == "localhost" || h == "127.0.0.1" || h == "::1" }
 
+// MaxBlocked: after this many cases in which a public call did not return, the remaining cases of a run are skipped
+// (every blocked case costs the full bound and leaks a goroutine); the failures found so far are the replay.
+const MaxBlocked = 50
+
+var blocked atomic.Int32
+
+// Blocked is the number of cases of this process in which a public call did not return.
+func Blocked() int { return int(blocked.Load()) }
+
 // RunAll runs the cases with bounded parallelism and returns the observations in order.
 func RunAll(cases []Case, p *PKI, timeout time.Duration, workers int, stop func() bool) ([]Obs, []error) {
 	obs := make([]Obs, len(cases))
@@ -849,6 +897,10 @@ func RunAll(cases []Case, p *PKI, timeout time.Duration, workers int, stop func(
 	for i := range cases {
 		if stop != nil && stop() {
 			errs[i] = errors.New("skipped: time box")
+			continue
+		}
+		if Blocked() >= MaxBlocked {
+			errs[i] = errors.New("skipped: too many blocked cases")
 			continue
 		}
 		wg.Add(1)
